@@ -33,6 +33,9 @@ from . import common
 _spec = importlib.util.spec_from_file_location("verif_translate_cppdefaults", str(common.VERIF / "translate" / "cppdefaults.py"))
 cppdefaults = importlib.util.module_from_spec(_spec)
 _spec.loader.exec_module(cppdefaults)
+_spec2 = importlib.util.spec_from_file_location("verif_translate_clioptions", str(common.VERIF / "translate" / "clioptions.py"))
+clioptions = importlib.util.module_from_spec(_spec2)
+_spec2.loader.exec_module(clioptions)
 
 _RAW = re.compile(r"[A-Za-z0-9_.:+-]+")
 
@@ -584,6 +587,23 @@ def strip_defaults(v):
     return v
 
 
+def generic_precedence(ctx, via, chain, final, desc):
+    """pick() over the chain at every path all sources are shape-compatible with (null / "" / 0 / false are explicit values)"""
+    if not all(isinstance(d, dict) for d in chain):
+        return
+    paths = set()
+    for d in chain:
+        paths.update(all_paths(d))
+    for p in sorted(paths):
+        if len(p) >= 2 and all(compat(v, p) for v in chain):
+            want, got = pick([at(v, p) for v in chain]), at(final, p)
+            ctx.count("precedence_paths_" + via)
+            if not same(want, got):
+                ctx.fail({"kind": "precedence", "via": via}, "effective value is not last-explicit-else-last-default (an explicit null / empty / 0 / false is a value)",
+                         dict(desc, path=list(p), expected=wire(want) if want is not _ABSENT else None,
+                              observed=wire(got) if got is not _ABSENT else None))
+
+
 def stream_language_config(ctx, drv, rng):
     from nunavut.lang._config import LanguageConfig
     n = 600 if ctx.quick else 8000
@@ -600,6 +620,7 @@ def stream_language_config(ctx, drv, rng):
                 break
         if ans is None:
             ans = "ok " + wire(cfg.sections())
+            generic_precedence(ctx, "LanguageConfig", docs, cfg.sections(), {"docs": [wire(d) for d in docs]})
         lines.append("cfg {} " + " ".join(wire(d) for d in docs))
         impl.append(ans)
         descs.append([wire(d) for d in docs])
@@ -638,14 +659,25 @@ def gen_options(rng, cpp, explicit_only=False):
     return o
 
 
-def gen_file_doc(rng, lang_sections, extra=("nunavut.lang.zz9",)):
-    """a YAML override file (plain YAML values only)"""
+FALSY = [None, "", 0, False]
+
+
+def gen_file_doc(rng, lang_sections, extra=("nunavut.lang.zz9",), falsy=True):
+    """a YAML override file (plain YAML values only); explicit nulls, empty strings, 0 and false occur at the top level
+    of a section and nested (they are values like any other: `stropping_suffix:` overrides an earlier `_`)"""
     doc = {}
     for _ in range(rng.randint(1, 2)):
         sec = rng.choice(list(lang_sections) + list(extra))
         body = {}
         if rng.random() < 0.8:
             body["options"] = gen_options(rng, sec.endswith("cpp"), explicit_only=True)
+            if falsy and rng.random() < 0.4:
+                body["options"][rng.choice(["zz_new", "cast_format", "zz_other"])] = rng.choice(FALSY)
+        if falsy and rng.random() < 0.5:
+            for key in rng.sample(["stropping_suffix", "stropping_prefix", "namespace_file_stem", "new_key", "encoding_prefix"], rng.randint(1, 2)):
+                body[key] = rng.choice(FALSY + FALSY + ["_", "x"])
+        if falsy and rng.random() < 0.15:
+            body["named_values"] = {rng.choice(["true", "mine"]): rng.choice(FALSY + ["T"])}
         if rng.random() < 0.4:
             key = rng.choice(["extension", "namespace_file_stem", "stropping_prefix", "new_key"])
             body[key] = rng.choice([".h", ".hpp", ".hxx"]) if key == "extension" else rng.choice([".h", ".hpp", "x", "_"])
@@ -916,7 +948,7 @@ def stream_cli(ctx, drv, rng):
         sec = "nunavut.lang." + (lang or "c")
         given = []
         for j in range(rng.choice([0, 1, 2, 2, 3])):
-            doc = gen_file_doc(rng, [sec], extra=())
+            doc = gen_file_doc(rng, [sec], extra=(), falsy=(i >= nsub))
             given.append((scratch_yaml(ctx, rng, doc), doc))
         if given:
             cut = rng.randrange(1, len(given)) if (len(given) > 1 and rng.random() < 0.2) else 0
@@ -948,11 +980,17 @@ def stream_cli(ctx, drv, rng):
             runner._language_context = runner._create_language_context()
             secs = runner._language_context.config.sections()
             ans = "ok " + wire(secs)
-            ovr = {"options": opts}
-            if args.output_extension is not None:
-                ovr["extension"] = args.output_extension
-            if args.namespace_output_stem is not None:
-                ovr["namespace_file_stem"] = args.namespace_output_stem
+            # what was GIVEN on the command line (not what argparse made of absent flags)
+            given_opts = {key: (True if flags[key] else DV()(False)) for key in flags}
+            if endian:
+                given_opts["target_endianness"] = endian
+            if std:
+                given_opts["std"] = std
+            ovr = {"options": given_opts}
+            if ext:
+                ovr["extension"] = ext if ext.startswith(".") else "." + ext
+            if stem:
+                ovr["namespace_file_stem"] = stem
             precedence_oracle(ctx, "cli", builtin_py, [d for _, d in files], sec, ovr, secs, lang or "c",
                               {"argv": [a if not a.startswith(str(ctx.scratch)) else a[len(str(ctx.scratch)) + 1:] for a in argv]})
             # the file's explicit value must survive a flag that was not given (issue #329)
@@ -1174,13 +1212,99 @@ def stream_cpp_shorthand_vs_files(ctx, rng):
                      {"shorthand": S, "option": k, "file_documents": [None if d is None else wire(d) for d in docs[:2]], "listed_values": outs})
 
 
+def stream_cli_defaults_vs_files(ctx, rng):
+    """Failing-input search for "values that are merely defaults of the command line never displace a value given in a
+    file": the generated table of EVERY option `_create_language_context` reads; for every option O that reaches the
+    configuration and every documented value v, a --configuration file setting O = v with the flag ABSENT must report v.
+    In-process (`_create_language_context` on the parsed argv) for the whole table, real `nnvg --list-configuration` for
+    a few."""
+    import yaml
+    from nunavut.cli import _make_parser
+    from nunavut.cli.runners import ArgparseRunner
+    try:
+        rows = clioptions.table(common.REPO)
+    except Exception:  # noqa  (already recorded as a broken translator)
+        return
+    builtin = builtin_sections_py()
+    cpp_groups = set(builtin.get("nunavut.lang.cpp", {}).get("defaults", {}).keys())
+    ctx.extra["cli_option_table"] = [{k: (repr(v) if k == "default" else v) for k, v in r.items()} for r in rows]
+    nsub_left = 3 if ctx.quick else 12
+    for r in rows:
+        if r["role"] not in ("option", "config"):
+            continue
+        if r["choices"]:
+            values = list(r["choices"])
+        elif r["action"] == "store_true":
+            values = [True, False]
+        elif r["key"] == "extension":
+            values = [".hh", ".hxx"]
+        else:
+            values = ["_file_a", "file_b"]
+        for v in values:
+            for lang in ("c", "cpp"):
+                if r["key"] == "std":
+                    if v in cpp_groups:
+                        ctx.count("cli_default_vs_file_skipped_shorthand")
+                        continue   # a shorthand rewrites std itself; covered by the shorthand oracles
+                    if (lang == "cpp") != str(v).startswith("c++"):
+                        continue
+                sec = "nunavut.lang." + lang
+                body = {"options": {r["key"]: v}} if r["role"] == "option" else {r["key"]: v}
+                path = (sec, "options", r["key"]) if r["role"] == "option" else (sec, r["key"])
+                doc = {sec: body}
+                argv = ["--list-configuration", "--experimental-languages", "--target-language", lang,
+                        "--configuration", str(scratch_yaml(ctx, rng, doc))]
+                try:
+                    args = _make_parser().parse_args(argv)
+                    runner = ArgparseRunner.__new__(ArgparseRunner)
+                    runner._args = args
+                    lctx = runner._create_language_context()
+                    got = at(lctx.config.sections(), path)
+                    if r["role"] == "option":
+                        rep = lctx.get_target_language().get_option(r["key"], _ABSENT)
+                    else:
+                        rep = lctx.get_target_language().get_config_value(r["key"], None)
+                    obs = [wire(got) if got is not _ABSENT else "absent", wire(rep) if rep is not _ABSENT else "absent"]
+                    bad = not same(strip_defaults(got), v) or not same(strip_defaults(rep), v)
+                except Exception as e:  # noqa
+                    obs, bad = ["raised " + cfg_exc_kind(e)], True
+                ctx.case(("cli-default-vs-file", r["dest"], repr(v), lang), True)
+                ctx.count("cli_table_default_vs_file")
+                if bad:
+                    ctx.fail({"kind": "cli-default-displaced-file-value", "option": r["dest"]},
+                             "a configuration file sets the option, the command-line flag is absent, and the file's value is not the effective one",
+                             {"flag_absent": r["flag"], "argparse_default": repr(r["default"]), "file_document": wire(doc),
+                              "argv": argv[:-1] + ["<file>"], "expected": wire(v), "configuration_and_reported": obs})
+                if (bad or r["dest"] == "target_endianness") and nsub_left > 0 and v not in ("any",):
+                    nsub_left -= 1
+                    env = dict(os.environ, PYTHONPATH=str(common.REPO / "src"))
+                    p = subprocess.run([common.PY, "-m", "nunavut"] + argv, capture_output=True, text=True, timeout=120, env=env, cwd=str(ctx.scratch))
+                    ctx.count("nnvg_subprocess_runs")
+                    listed = "rc=%d" % p.returncode
+                    if p.returncode == 0:
+                        dumped = yaml.load(p.stdout, Loader=yaml.UnsafeLoader)
+                        lv = at(dumped, path)
+                        listed = wire(lv) if lv is not _ABSENT else "absent"
+                    if listed != wire(v):
+                        ctx.fail({"kind": "cli-default-displaced-file-value", "option": r["dest"], "via": "nnvg"},
+                                 "nnvg --list-configuration does not list the value the configuration file gives although the flag is absent",
+                                 {"flag_absent": r["flag"], "file_document": wire(doc), "argv": argv[:-1] + ["<file>"],
+                                  "expected": wire(v), "listed": listed})
+
+
 # ------------------------------------------------------------------------------------------------------
 def run(ctx: common.Ctx):
     try:
         changed = cppdefaults.main(common.REPO)
         ctx.extra["translator"] = {"cppdefaults": "rewritten" if changed else "unchanged"}
     except Exception as e:  # noqa  (the translator can no longer express the source: tie broken)
+        ctx.extra["translator"] = {}
         ctx.broken.append({"kind": "translator", "translator": "cppdefaults", "error": repr(e)})
+    try:
+        changed = clioptions.main(common.REPO)
+        ctx.extra["translator"]["clioptions"] = "rewritten" if changed else "unchanged"
+    except Exception as e:  # noqa
+        ctx.broken.append({"kind": "translator", "translator": "clioptions", "error": repr(e)})
     drivers = ctx.prove(["C13"], exes=["config"])
     drv = drivers.get("config")
     ctx.rule = ("deep_update: every (target, source) pair of the universe {dicts over keys a,b, depth<=2, leaves scalar/DefaultValue(/list)} "
@@ -1203,6 +1327,7 @@ def run(ctx: common.Ctx):
     stream_builders(ctx, drv, rng)
     stream_cli(ctx, drv, rng)
     stream_cpp_shorthand_vs_files(ctx, rng)
+    stream_cli_defaults_vs_files(ctx, rng)
 
 
 def replay(ctx, path):
